@@ -31,9 +31,18 @@ H("c11_tsan", "C11", "tsan", ["harness/c11_tsan.cc"], aux=True, args={"quick": [
 # --- C01 / C02 / C03: batch processors under the scheduler ------------------------------------------
 BATCH_SDK = ["common", "version", "resource", "trace", "logs"]
 for _p in ("C01", "C02", "C03"):
+    # preemption depth: quick k<=2, thorough k<=3 (no other deviation kinds, so the rounds are pure context bounds)
     H("batch_" + _p.lower(), _p, "sched", ["harness/batch_harness.cc"], sdk=BATCH_SDK,
-      args={"quick": ["--oracle=" + _p, "--set=light", "--budget=100"], "thorough": ["--oracle=" + _p, "--set=light", "--budget=" + {"C01": "1400", "C02": "700", "C03": "600"}[_p]]},
+      args={"quick": ["--oracle=" + _p, "--set=light", "--budget=100"],
+            "thorough": ["--oracle=" + _p, "--set=light", "--k=3", "--t=0", "--c=0", "--budget=" + {"C01": "1200", "C02": "600", "C03": "500"}[_p]]},
       what="real BatchSpanProcessor and BatchLogRecordProcessor (with the real CircularBuffer) driven by producer / flusher / shutdown threads; oracle " + _p,
+      design_ref="5/" + _p)
+    # the other deviation kinds (a timer firing early = an arbitrarily slow thread, spurious weak-CAS failure, spurious
+    # wake-up) combined with few preemptions
+    H("batch_" + _p.lower() + "_dev", _p, "sched", ["harness/batch_harness.cc"], sdk=BATCH_SDK,
+      args={"quick": ["--oracle=" + _p, "--set=light", "--k=0", "--t=1", "--c=1", "--w=1", "--budget=25"],
+            "thorough": ["--oracle=" + _p, "--set=light", "--k=1", "--t=1", "--c=1", "--w=1", "--budget=300"]},
+      what="same harness: timer deviations (a timeout firing although threads are runnable), spurious weak-CAS failures and spurious wake-ups, with at most one preemption; oracle " + _p,
       design_ref="5/" + _p)
 H("batch_c02_heavy", "C02", "sched", ["harness/batch_harness.cc"], sdk=BATCH_SDK,
   args={"quick": ["--oracle=C02", "--set=heavy", "--k=1", "--budget=40"], "thorough": ["--oracle=C02", "--set=heavy", "--k=2", "--t=1", "--c=0", "--budget=400"]},
